@@ -52,12 +52,28 @@ RECURSIVE Table(_, _, _)
 Table(files, i, tab) == IF i > Len(files) THEN tab ELSE Table(files, i + 1, Insert(tab, FileEntries(files[i]), 1))
 EmptyTable == [k \in {} |-> "none"]
 
+\* intended table (C15): a module declaration never hides a definition with the same scoped name, whichever was parsed
+\* first - a module only takes a key that is free, a definition always takes its key
+RECURSIVE InsertIntended(_, _, _)
+InsertIntended(tab, entries, i) ==
+  IF i > Len(entries) THEN tab
+  ELSE LET e == entries[i]
+           keep == e.kind = "module" /\ e.key \in DOMAIN tab IN
+       InsertIntended(IF keep THEN tab ELSE [k \in (DOMAIN tab) \cup {e.key} |-> IF k = e.key THEN e.kind ELSE tab[k]], entries, i + 1)
+RECURSIVE TableIntended(_, _, _)
+TableIntended(files, i, tab) == IF i > Len(files) THEN tab ELSE TableIntended(files, i + 1, InsertIntended(tab, FileEntries(files[i]), 1))
+
 RECURSIVE Walk(_, _, _)
 Walk(tab, scope, segs) ==
   LET cand == scope \o segs IN
   IF cand \in DOMAIN tab THEN Hit(cand, tab[cand])
   ELSE IF scope = <<>> THEN Missing
   ELSE Walk(tab, Prefix(scope, Len(scope) - 1), segs)
+LookupIn(tab, ref) ==
+  IF ref.global THEN (IF ref.segs \in DOMAIN tab THEN Hit(ref.segs, tab[ref.segs]) ELSE Missing)
+  ELSE Walk(tab, ref.scope, ref.segs)
+LookupIntended(files, ref) == LookupIn(TableIntended(files, 1, EmptyTable), ref)
+LookupAsBuilt(files, ref)  == LookupIn(Table(files, 1, EmptyTable), ref)
 Lookup(files, ref) ==
   LET tab == Table(files, 1, EmptyTable) IN
   IF ref.global THEN (IF ref.segs \in DOMAIN tab THEN Hit(ref.segs, tab[ref.segs]) ELSE Missing)
